@@ -79,14 +79,17 @@ def gen_text_b(rng, in_package=False, own=None):
         elif r < 0.55:
             lines.append("from zm%d import K0 as C%d, x0 as u%d" % (k, k, k))
             lines.append("i%d = C%d()" % (k, k))
-        elif r < 0.7 and (own is None or k > own):
+        elif r < 0.8 and (own is None or k > own):
             lines.append("from zm%d import *" % k)
-        elif r < 0.85 and in_package:
+            lines.append("t%d = e%d" % (k, k))          # a use of a name that only the star import provides
+        elif r < 0.9 and in_package:
             lines.append("from . import zm%d as r%d" % (k, k))
         else:
             lines.append("import zm%d" % k)
             lines.append("class D%d(zm%d.K0):\n    d%d = 1" % (k, k, k))
     lines.append("x0 = %d" % rng.randint(0, 9))
+    if own is not None and rng.random() < 0.6:
+        lines.append("e%d = %d" % (own, rng.randint(0, 9)))   # the name this module exports to star importers
     if rng.random() < 0.8:
         lines.append("class K0:\n    a%d = %d\n    def m%d(self):\n        return %d"
                      % (rng.randint(0, 2), rng.randint(0, 9), rng.randint(0, 2), rng.randint(0, 9)))
@@ -181,12 +184,18 @@ class Driver:
         pj = self.project
         k = act[0]
         nundo = len(pj.history.undo_list)
+        nev = self.events
         try:
             return self._perform(act)
         finally:
-            if k not in ("undo", "redo", "external", "q") and len(pj.history.undo_list) > nundo:
-                self.safe_undo += 1
-                self.safe_redo = 0
+            if k not in ("undo", "redo", "external", "pending", "q"):
+                if len(pj.history.undo_list) > nundo:
+                    self.safe_undo += 1
+                    self.safe_redo = 0
+                elif self.events > nev:
+                    # a change that rope does not record (it only touches ignored resources): undoing older
+                    # changes across it is undefined, like across changes made behind rope's back
+                    self.safe_undo = self.safe_redo = 0
 
     def _perform(self, act):
         from rope.base import change as ch, exceptions
@@ -236,6 +245,8 @@ class Driver:
             self.safe_undo += 1
         elif k == "external":
             self.external(act[1], act[2] if len(act) > 2 else "")
+        elif k == "pending":
+            self.pending(act[1])
         elif k == "q":
             self.query(act[1:])
         else:
@@ -247,9 +258,30 @@ class Driver:
         os.utime(real, (self.fake, self.fake))
 
     def external(self, xs, folder=""):
+        model_xs = [self.do_xop(x) for x in xs]
+        self.safe_undo = self.safe_redo = 0     # undoing across changes made behind rope's back is undefined
+        if folder:
+            self.project.validate(self.project.get_folder(folder))
+        else:
+            self.project.validate()
+        self.case(("ext", model_xs, W.path_of(folder)))
+
+    def pending(self, items):
+        """changes behind rope's back interleaved with queries, project.validate() only at the end"""
+        self.safe_undo = self.safe_redo = 0
+        for it in items:
+            if it[0] == "x":
+                self.case(("pendx", self.do_xop(it[1])))
+            else:
+                self.query(it[1:])
+        self.project.validate()
+        self.case(("validate", ()))
+
+    def do_xop(self, x):
+        """one modification behind rope's back; returns the model's xop"""
         root = self.root
         model_xs = []
-        for x in xs:
+        if True:
             k = x[0]
             real = os.path.join(root, *x[1].split("/"))
             par = os.path.dirname(real)
@@ -301,12 +333,7 @@ class Driver:
                 model_xs.append(("move", W.path_of(x[1]), W.path_of(x[2])))
             else:
                 raise ValueError(k)
-        self.safe_undo = self.safe_redo = 0     # undoing across changes made behind rope's back is undefined
-        if folder:
-            self.project.validate(self.project.get_folder(folder))
-        else:
-            self.project.validate()
-        self.case(("ext", model_xs, W.path_of(folder)))
+        return model_xs[0]
 
     def query(self, q):
         from rope.base import exceptions
@@ -401,7 +428,8 @@ def _free_file(rng, tree_strs, folders, depth_ok=True):
     for _ in range(12):
         parent = rng.choice(folders)
         r = rng.random()
-        name = ("zm%d.py" % rng.randrange(W.NMOD)) if r < 0.7 else (W.INIT if r < 0.9 else "zt%d.txt" % rng.randrange(W.NTXT))
+        name = ("zm%d.py" % rng.randrange(W.NMOD)) if r < 0.66 else (W.INIT if r < 0.86 else (
+            "zt%d.txt" % rng.randrange(W.NTXT) if r < 0.94 else "zm%d.py~" % rng.randrange(W.NMOD)))
         if parent == "" and name == W.INIT:
             continue
         p = _join(parent, name)
@@ -452,6 +480,17 @@ def gen_action(rng, drv, tree):
     tset = set(files) | set(folders)
     if drv.safe_redo > 0 and rng.random() < 0.4:
         return ["redo"]
+    if rng.random() < 0.04:
+        # an editor backup (ignored by the default pattern "*~") is restored under the module's name through rope,
+        # or a module is renamed to its backup name
+        igs = [f for f in files if f.endswith("~") and f[:-1] not in tset]
+        pys = [f for f in files if f.endswith(".py") and not f.endswith(W.INIT) and f + "~" not in tset]
+        if igs and (not pys or rng.random() < 0.6):
+            f = rng.choice(igs)
+            return ["move", f, f[:-1]]
+        if pys:
+            f = rng.choice(pys)
+            return ["move", f, f + "~"]
     txts0 = [f for f in files if f.endswith(".txt")]
     if txts0 and rng.random() < 0.12:
         # a non-Python file is renamed to the name of a module that is imported somewhere but does not exist yet
@@ -464,9 +503,15 @@ def gen_action(rng, drv, tree):
         # re-create a resource whose watch entry is still there: through rope or behind its back
         p = rng.choice(lost)
         isdir = W.is_folder_name(p.split("/")[-1])
-        if rng.random() < 0.5:
+        k = rng.random()
+        if k < 0.35:
             return ["create_folder" if isdir else "create_file", p]
-        return ["external", [["xmkdir" if isdir else "xcreate_file", p]]]
+        if k < 0.6 or isdir:
+            return ["external", [["xmkdir" if isdir else "xcreate_file", p]]]
+        # re-created behind rope's back, asked for before the next validate, edited again, then validate
+        gt = (lambda q: gen_text_a(rng, allow_error=False)) if stream == "A" else (lambda q: gen_text_b(rng, own=_own_id(q)))
+        return ["pending", [["x", ["xcreate_file", p]], ["x", ["xwrite", p, gt(p)]], ["q", "load", p],
+                            ["x", ["xwrite", p, gt(p) + "# again\n"]]]]
     pyfiles = [f for f in files if f.endswith(".py")]
     gen_text = (lambda p: gen_text_a(rng, allow_error=not p.endswith(W.INIT))) if stream == "A" else \
         (lambda p: gen_text_b(rng, in_package="/" in p, own=_own_id(p)))
@@ -553,8 +598,17 @@ def gen_action(rng, drv, tree):
         return ["undo"]
     if r < 0.71:
         return ["undo"] if drv.safe_undo > 0 else ["redo"]
-    if r < 0.84:
+    if r < 0.80:
         return gen_external(rng, gen_text, tree, drv.root)
+    if r < 0.84 and pyfiles:
+        # an IDE keeps asking while files change under it: changes and queries interleaved, validate at the end
+        p = rng.choice(pyfiles)
+        items = [["q", "load", p], ["x", ["xwrite", p, gen_text(p)]], ["q", "load", p]]
+        if rng.random() < 0.5:
+            c = tree[W.path_of(p)]
+            items.append(["q", "resolve", p, rng.choice(list(c[2])) if c[2] else rng.randrange(W.NMOD)])
+        items.append(["x", ["xwrite", p, gen_text(p) + "# later\n"]])
+        return ["pending", items]
     # controlled queries (stream A only; harmless in B)
     k = rng.random()
     if k < 0.2:
@@ -687,7 +741,8 @@ def gen_selection(rng, tree, full=False):
     pys = [f for f in files if f.endswith(".py")]
     if pys and rng.random() < (0.5 if full else 0.12):
         p = rng.choice(pys)
-        sel["occ"] = [[p, rng.choice(["x0", "K0", "zm%d" % rng.randrange(W.NMOD), "f0"])]]
+        sel["occ"] = [[p, rng.choice(["x0", "K0", "zm%d" % rng.randrange(W.NMOD), "f0"] +
+                                     ["e%d" % k for k in range(W.NMOD)])]]
     return sel
 
 
@@ -846,6 +901,10 @@ def case_term(c):
         k = "(KStep (ORope %s) None)" % W.g_xop(kind[1])
     elif kind[0] == "ext":
         k = "(KStep (OExternal %s %s) None)" % (W.g_path(kind[2]), g_list([W.g_xop(x) for x in kind[1]]))
+    elif kind[0] == "pendx":
+        k = "(KPendX %s)" % W.g_xop(kind[1])
+    elif kind[0] == "validate":
+        k = "(KValidate %s)" % W.g_path(kind[1])
     elif kind[0] == "q":
         k = "(KStep (OQuery %s) (Some %s))" % (W.g_query(kind[1]), W.g_answer(kind[2]))
     else:
@@ -905,7 +964,7 @@ def run(ctx):
     _check_pool_names()
     ctx.extra["model_variant"] = "fix_move = fix_forget = true (repo commits d932e8e, b19aaa7)"
     nA = ctx.scale(45, 700)
-    nB = ctx.scale(25, 400)
+    nB = ctx.scale(40, 450)
     tagged = []
     hist_info = {}
     hidx = 0
@@ -930,6 +989,8 @@ def run(ctx):
                         ctx.count("xop:" + x[0])
                 if s["act"][0] == "move" and s["act"][1].endswith(".txt") != s["act"][2].endswith(".txt"):
                     ctx.count("act:move between a non-Python and a Python file name")
+                if s["act"][0] == "move" and s["act"][1].endswith("~") != s["act"][2].endswith("~"):
+                    ctx.count("act:move between an ignored and a non-ignored name")
             ctx.count("events", res["events"])
             hist_info[hidx] = (stream, soa, res)
             if res.get("order_artefact"):
@@ -962,12 +1023,20 @@ def run(ctx):
         kind = c[1][0]
         ctx.count("case:" + kind)
         coh_pre, coh_post, unaff = bool(fl & 2), bool(fl & 8), bool(fl & 16) and bool(fl & 128)
+        if kind == "pendx" and not fl & 128:
+            ctx.count("pending change NOT x_sound")
+        if kind == "validate" and not coh_post and gi not in mism and h not in reported:
+            reported.add(h)
+            report_model(ctx, hist_info[h], gi, c, "real state after validate() violates Coherent although the preceding "
+                         "changes behind rope's back were visible in the indicators (C13_validate_after_queries)")
         if kind == "ext":
             ctx.count("ext batch: " + ("validate(sub-folder)" if c[1][2] else "validate()") +
                       (", ext_ok (confined and visible in the indicators)" if fl & 128 else ", NOT ext_ok"))
         if fl & 64:
             ctx.count("case:rope raises (model branch move_raises)")
-        if coh_pre:
+        if kind == "pendx":
+            pass        # between a change behind rope's back and validate nothing is claimed (C13_validate_after_queries)
+        elif coh_pre:
             dom += 1
             if fl & 64:
                 ref += 1
